@@ -2,12 +2,12 @@
    Model: Model/Query.v, byte level: keys are the bytes Key::into_vec builds, the store is the list of
    entries in RocksDB (bytewise) order, "matching" = the stored key starts with the search prefix.
 
-   Proved for ascending order, for cells and for (ungrouped) transactions alike (the theorem is generic
-   in the entry type and the filter).  Descending order, the grouped page-boundary rule and the
-   cursor = Some [] corner are decided by the correspondence check only (C13 is claimed partial there):
-   their byte-level proofs mirror the ascending one over the reversed order and are not written yet. *)
+   Proved for both orders, for cells and for (ungrouped) transactions alike (the theorems are generic in the
+   entry type and the filter): following last_cursor yields exactly the stored entries whose key starts with
+   the search prefix and which pass the filters, once each, in iteration order.  The grouped page-boundary rule
+   and the cursor = Some [] corner are decided by the correspondence check only (C13 is claimed partial there). *)
 From Coq Require Import NArith List Bool Sorted.
-From LC Require Import Query QueryProofs.
+From LC Require Import Query QueryProofs QueryOrderProofs.
 Import ListNotations.
 Open Scope N_scope.
 
@@ -59,6 +59,54 @@ Theorem C13_capacity_is_sum :
          (length (scan ce_key tag raw al true None db)) None db))).
 Proof. exact capacity_is_sum. Qed.
 Print Assumptions C13_capacity_is_sum.
+
+(* ---- both orders ---- *)
+
+(* one RPC call in the generic form is get_cells / get_transactions in the given order *)
+Theorem C13_page_is_get_cells_any_order :
+  forall tag raw al other f limit cursor asc (db : list centry),
+    get_page_o ce_key (cell_pass other f) tag raw al limit db asc cursor = get_cells tag raw al other f asc limit cursor db.
+Proof. reflexivity. Qed.
+Print Assumptions C13_page_is_get_cells_any_order.
+
+Theorem C13_page_is_get_txs_any_order :
+  forall tag raw al fs block limit cursor asc (db : list tentry),
+    get_page_o te_key (tx_pass fs block) tag raw al limit db asc cursor = get_txs tag raw al fs block asc limit cursor db.
+Proof. reflexivity. Qed.
+Print Assumptions C13_page_is_get_txs_any_order.
+
+(* ascending or descending, any limit >= 1: the concatenated pages are exactly the stored entries whose key starts
+   with the search prefix and which pass the filters - none missing, none twice, none foreign - in key order
+   (ascending) or reverse key order (descending).  For descending order the iterator starts at
+   prefix ++ 0xff * (65535 - args_len); the hypothesis says no stored key with the prefix lies above that start key
+   (keys are strings of bytes no longer than it: script args shorter than 65519 bytes). *)
+Theorem C13_pages_are_the_matching_cells :
+  forall tag raw al other f limit asc (db : list centry),
+    sorted_db ce_key db -> (1 <= limit)%nat ->
+    (asc = false -> forall e, In e db -> starts_with (ce_key e) (tag :: raw) = true ->
+        bytes_ok (ce_key e) /\ (length (ce_key e) <= length (tag :: raw) + (MAX_PREFIX - al))%nat) ->
+    pages_o ce_key (cell_pass other f) tag raw al limit db asc (S (length db)) None
+    = filter (cell_pass other f) (iter asc (filter (fun e => starts_with (ce_key e) (tag :: raw)) db)).
+Proof. intros. apply pages_are_the_matching_entries; assumption. Qed.
+Print Assumptions C13_pages_are_the_matching_cells.
+
+Theorem C13_pages_are_the_matching_txs :
+  forall tag raw al fs block limit asc (db : list tentry),
+    sorted_db te_key db -> (1 <= limit)%nat ->
+    (asc = false -> forall e, In e db -> starts_with (te_key e) (tag :: raw) = true ->
+        bytes_ok (te_key e) /\ (length (te_key e) <= length (tag :: raw) + (MAX_PREFIX - al))%nat) ->
+    pages_o te_key (tx_pass fs block) tag raw al limit db asc (S (length db)) None
+    = filter (tx_pass fs block) (iter asc (filter (fun e => starts_with (te_key e) (tag :: raw)) db)).
+Proof. intros. apply pages_are_the_matching_entries; assumption. Qed.
+Print Assumptions C13_pages_are_the_matching_txs.
+
+(* non-vacuity, descending: a store with a foreign entry on either side, limit 2, two pages in reverse key order *)
+Example C13_example_pages_desc :
+  let e k := mkCE [32; 7; k] k [] None 0 10 in
+  let x := mkCE [32; 6; 9] 9 [] None 0 10 in
+  let y := mkCE [32; 8; 0] 0 [] None 0 10 in
+  pages_o ce_key (cell_pass true (mkCF None None None None None)) 32 [7] 0 2 [x; e 1; e 2; e 5; y] false 6 None = [e 5; e 2; e 1].
+Proof. vm_compute. reflexivity. Qed.
 
 (* non-vacuity: a sorted three-entry store, limit 1, three pages *)
 Example C13_example_pages :
